@@ -143,7 +143,16 @@ class Stepper:
         return new_tr, acc, events
 
 
-def _bracket(ctx, stepper, key, host_seed, tr0, trA, log_alpha_ref, tol_w, d, kname):
+def _same_deliveries(ev_a, ev_b):
+    """Did the host hand the same values to the same sites in both runs?  The probe call-backs are unordered: when
+    two independent sites are evaluated in another order by XLA, the host generator's values reach other sites and
+    the two runs are not the same experiment (seen once in ~8000 thorough kernel steps)."""
+    fa = [(e.tag, np.asarray(e.value).tolist(), [np.asarray(p).tolist() for p in e.params]) for e in ev_a if e.tag != TAG_U]
+    fb = [(e.tag, np.asarray(e.value).tolist(), [np.asarray(p).tolist() for p in e.params]) for e in ev_b if e.tag != TAG_U]
+    return fa == fb
+
+
+def _bracket(ctx, stepper, key, host_seed, tr0, trA, log_alpha_ref, tol_w, d, kname, base_events=None):
     """u just below alpha must accept (same proposal), u just above must reject (input unchanged)."""
     alpha = math.exp(min(0.0, log_alpha_ref))
     delta = 2e-3 + 30 * tol_w
@@ -156,6 +165,9 @@ def _bracket(ctx, stepper, key, host_seed, tr0, trA, log_alpha_ref, tol_w, d, kn
             from lib import gfi
 
             ctx.violation(gfi.raise_key(kname, t), {**d, **t.brief()})
+            return False
+        if base_events is not None and not _same_deliveries(base_events, ev):
+            ctx.count("bracket_skipped_callback_order_differs")
             return False
         if not bool(np.asarray(acc)) or not _tree_bit_equal(t, trA):
             ctx.violation(
@@ -171,6 +183,9 @@ def _bracket(ctx, stepper, key, host_seed, tr0, trA, log_alpha_ref, tol_w, d, kn
             from lib import gfi
 
             ctx.violation(gfi.raise_key(kname, t), {**d, **t.brief()})
+            return False
+        if base_events is not None and not _same_deliveries(base_events, ev):
+            ctx.count("bracket_skipped_callback_order_differs")
             return False
         if bool(np.asarray(acc)):
             ctx.violation(
@@ -425,7 +440,7 @@ def _run_generated(case, ctx):
         w_ref = M.mh_weight(ref_old, ref_new, sset)
         tol_w = R.tol(ref_old.abs_sum() + ref_new.abs_sum(), len(ref_old.sites) + len(ref_new.sites))
         d2 = {**d, "proposal": chA, "reference_log_weight": w_ref}
-        if _bracket(ctx, stepper, key, hs, tr0, trA, w_ref, tol_w, d2, "mh"):
+        if _bracket(ctx, stepper, key, hs, tr0, trA, w_ref, tol_w, d2, "mh", events):
             ctx.distinct("nontrivial", [h, "mh", sorted(gfi.pstr(p) for p in sset)])
 
     # ----------------------------------------------------------- mala / hmc
@@ -520,7 +535,7 @@ def _run_generated(case, ctx):
             continue
         ctx.count(kname + "_proposals_matched")
         tol_w = R.tol(ref_old.abs_sum() + ref_new.abs_sum() + ncoord * 3.0, 2 * len(ref_old.sites) + 2 * ncoord) * 3
-        if _bracket(ctx, stepper, key, hs, tr0, trA, la, tol_w, d2, kname):
+        if _bracket(ctx, stepper, key, hs, tr0, trA, la, tol_w, d2, kname, events):
             ctx.distinct("nontrivial", [h, kname, sorted(gfi.pstr(p) for p in ps)])
             if not sampled:
                 sampled = True
